@@ -326,7 +326,13 @@ Definition api_hset (ds : list db) (i : Z) (k : bytes) (fv : list (bytes * bytes
       end
   | None => None
   end.
-(** xadd_with_id + Stream::add_with_id: the ID must exceed last_id (0-0 for a new stream);
+(** a stream without consumer groups whose atomics (last_id_millis / last_id_seq) equal [last]
+    and whose length counter is [n] *)
+Definition mkstream (es : list (sid * list (bytes * bytes))) (last : sid) (n : Z) : stream :=
+  {| s_entries := es; s_last := last; s_ams := fst last; s_aseq := snd last; s_len := n; s_groups := [] |}.
+(** xadd_with_id + Stream::add_with_id: the ID must exceed last_id (0-0 for a new stream; the
+    duplicate test by binary search that follows in the code cannot succeed once the ID exceeds
+    last_id in a stream built by add_with_id);
     None = Err (invalid database, wrong type, ID not above last_id) *)
 Definition api_xadd_r (ds : list db) (i : Z) (k : bytes) (id : sid) (fields : list (bytes * bytes)) : option (list db) :=
   match get_dbi ds i with
@@ -336,11 +342,12 @@ Definition api_xadd_r (ds : list db) (i : Z) (k : bytes) (id : sid) (fields : li
                   | VStream s =>
                       if sid_leb id (s_last s) then None
                       else Some (set_dbi ds i (keep_exp d k (VStream {| s_entries := s_entries s ++ [(id, fields)];
-                                                                        s_last := id; s_groups := s_groups s |}) e))
+                                                                        s_last := id; s_ams := fst id; s_aseq := snd id;
+                                                                        s_len := s_len s + 1; s_groups := s_groups s |}) e))
                   | _ => None
                   end
       | None => if sid_leb id (0, 0) then None
-                else Some (set_dbi ds i (new_key d k (VStream {| s_entries := [(id, fields)]; s_last := id; s_groups := [] |})))
+                else Some (set_dbi ds i (new_key d k (VStream (mkstream [(id, fields)] id 1))))
       end
   | None => None
   end.
@@ -356,22 +363,27 @@ Definition api_expire (now : Z) (ds : list db) (i : Z) (k : bytes) (ttl : Z) : o
 Definition api_expire_opt (now : Z) (ds : list db) (i : Z) (k : bytes) (ttl : option Z) : option (list db) :=
   match ttl with Some t => api_expire now ds i k t | None => Some ds end.
 
-(** StreamId::from_string: first '-' splits; both halves digits only (possibly empty = 0),
-    u64 wrapping accumulation; not UTF-8 => "" => None (a non-digit byte fails anyway) *)
+(** StreamId::from_string: the first '-' splits; both halves must be non-empty, digits only and
+    fit u64 (checked arithmetic since the repair of the wrapping parse); not UTF-8 => "" => None
+    (a non-digit byte fails anyway) *)
 Fixpoint split_dash (l : bytes) : option (bytes * bytes) :=
   match l with
   | [] => None
   | c :: r => if c =? 45 then Some ([], r)
               else match split_dash r with Some (a, b) => Some (c :: a, b) | None => None end
   end.
-Fixpoint parse_u64_fast (l : bytes) (acc : Z) : option Z :=
+Fixpoint parse_u64_go (l : bytes) (acc : Z) : option Z :=
   match l with
   | [] => Some acc
-  | c :: r => if is_digit c then parse_u64_fast r ((acc * 10 + (c - 48)) mod two64) else None
+  | c :: r => if is_digit c
+              then (let v := acc * 10 + (c - 48) in if v <? two64 then parse_u64_go r v else None)
+              else None
   end.
+Definition parse_u64_fast (l : bytes) : option Z :=
+  match l with [] => None | _ => parse_u64_go l 0 end.
 Definition sid_of_text (l : bytes) : option sid :=
   match split_dash l with
-  | Some (a, b) => match parse_u64_fast a 0, parse_u64_fast b 0 with
+  | Some (a, b) => match parse_u64_fast a, parse_u64_fast b with
                    | Some ms, Some sq => Some (ms, sq)
                    | _, _ => None
                    end
@@ -728,12 +740,13 @@ Definition db_ok (now ws wl : Z) (d : db) : bool :=
 Definition rt_guard (now ws wl : Z) (ds : list db) : bool :=
   Nat.eqb (length ds) 16 && forallb (db_ok now ws wl) ds.
 
-(** what is not persisted: consumer groups, last_id beyond the last entry *)
+(** what is not persisted: consumer groups, last_id (and the ID atomics) beyond the last entry;
+    the length counter is rebuilt from the entries *)
 Fixpoint last_sid (dflt : sid) (es : list (sid * list (bytes * bytes))) : sid :=
   match es with [] => dflt | e :: r => last_sid (fst e) r end.
 Definition norm_value (v : value) : value :=
   match v with
-  | VStream s => VStream {| s_entries := s_entries s; s_last := last_sid (0, 0) (s_entries s); s_groups := [] |}
+  | VStream s => VStream (mkstream (s_entries s) (last_sid (0, 0) (s_entries s)) (len (s_entries s)))
   | _ => v
   end.
 (** the deadline on the clock of the restarted engine: [now'] at the load *)
